@@ -26,3 +26,10 @@ GROUPS += [
           flags=["--no-malloc-may-fail"], must_fail=["reach_end", "reach_two_range_entries"], functions=["ILLfree_rawlpdata", "ILLraw_clear_matrix", "ILLraw_add_col_coef", "ILLraw_add_ranges_coef", "ILLcolptralloc", "ILLptrworld_delete", "ILLutil_bigchunkalloc"],
           props=["C18", "C17"], assumed=["life/rawlp_free: GMP model variant TOKENS (one heap token per initialised number)"]),
 ]
+
+GROUPS += [
+    Group("life/lpdata_sos", "lpdata_sos.c", tus=["rawlp_mpq.c", "lpdata_mpq.c", "dstruct_mpq.c", "reporter.c", "symtab.c", "allocrus.c", "eg_lpnum.c"], model=MODEL, defines=TOK, dfcc=False, export_static=True, unwind=6, kind="bounded", leak=True, namebuf=512, timeout=1200,
+          bound="one special ordered set with two members on a problem of two columns (concrete layout, symbolic type and weights); loops completely unwound",
+          flags=["--no-malloc-may-fail"], functions=["buildSosInfo", "ILLlpdata_init", "ILLlpdata_free", "ILLmatrix_free"],
+          props=["C18", "C17"], assumed=["life/lpdata_sos: static buildSosInfo called through goto-cc --export-file-local-symbols; GMP model variant TOKENS; ILLlp_rows_clear / ILLlp_sinfo_free are empty stubs (members absent)"]),
+]
